@@ -119,7 +119,84 @@ var selAlphabet = []byte("[](){}':|=>.<-*, aeh01\\\"`\x00")
 // C09: ExecReader on a fresh copy of the document; value / error equality, no panic, the
 // document untouched; plus byte-level mutations of the selector text (no panic, document
 // untouched - their meaning is not claimed).
+var freshCounter int
+
+// freshen renames every key of the confusable family apart (same suffix in the document
+// and in both selectors), so that no text of this case is in the library's cache yet.
+func freshen(v any, suffix string, names map[string]bool) any {
+	switch x := v.(type) {
+	case []any:
+		out := make([]any, len(x))
+		for i, e := range x {
+			out[i] = freshen(e, suffix, names)
+		}
+		return out
+	case map[string]any:
+		out := map[string]any{}
+		for k, e := range x {
+			nk := k
+			if names[k] {
+				nk = k + suffix
+			}
+			if k == "name" {
+				if sname, ok := e.(string); ok && names[sname] {
+					out[k] = sname + suffix
+					continue
+				}
+			}
+			out[nk] = freshen(e, suffix, names)
+		}
+		return out
+	}
+	return v
+}
+
+var confusable = map[string]bool{"cd": true, "c d": true, "CD": true, "c  d": true, "cd_": true}
+
+func quotedSelectorText(sel []any) string {
+	// every key quoted
+	parts := []string{}
+	for _, sg := range sel {
+		ks := []string{}
+		for _, st := range seq(sg.(Node)["steps"]) {
+			ks = append(ks, "'"+st.(Node)["name"].(string)+"'")
+		}
+		parts = append(parts, strings.Join(ks, "."))
+	}
+	return strings.Join(parts, "::")
+}
+
+// a history of two selectors evaluated in this order in one process
+func checkC09History(c Node) Verdict {
+	freshCounter++
+	suffix := fmt.Sprintf("%dx%d", Seed%1000, freshCounter)
+	fc := freshen(any(c), suffix, confusable).(map[string]any)
+	doc := FromTagged(fc["doc"])
+	pristine := DeepCopy(doc)
+	t1, t2 := quotedSelectorText(seq(fc["before"])), quotedSelectorText(seq(fc["sel"]))
+	sig := []string{"history", "step:key"}
+	desc := fmt.Sprintf("ExecReader(doc, %q) ; ExecReader(doc, %q)", t1, t2)
+	v := Verdict{OK: true, SQL: desc, Sig: sig, Execs: 2, Nontrivial: t1 != t2}
+	for i, tx := range []string{t1, t2} {
+		want := FromTagged([]any{fc["resbefore"], fc["res"]}[i])
+		got, err, pan := execReader(doc, tx)
+		if pan != nil {
+			return fail("panic", desc, sig, "panic: %v", pan)
+		}
+		if err != nil || !Equal(got, want) {
+			return fail("result", desc, sig, "selector %d of the history: want %s got %s (err %v)", i+1, Canon(want), Canon(got), err)
+		}
+	}
+	if !Equal(doc, pristine) {
+		return fail("docmut", desc, sig, "the document was modified")
+	}
+	return v
+}
+
 func checkC09(c Node) Verdict {
+	if b, ok := c["before"].([]any); ok && len(b) > 0 {
+		return checkC09History(c)
+	}
 	sel := seq(c["sel"])
 	text := SelectorText(sel)
 	sig := selFeatures(sel)
